@@ -428,8 +428,27 @@ func (n *N) splitCond(x *ast.IfStmt) []ast.Stmt {
 
 // switchToIf rewrites a tagless switch without fallthrough/break into an if chain.
 func (n *N) switchToIf(x *ast.SwitchStmt) ([]ast.Stmt, bool) {
+	// a tagged switch on a plain variable (parameter, local, or a field chain of one) compares it with each
+	// case expression: `switch t { case a, b: … }` is `if t == a || t == b { … }`
+	var tag ast.Expr
 	if x.Tag != nil {
-		return nil, false
+		t := x.Tag
+		for {
+			if p, ok := t.(*ast.ParenExpr); ok {
+				t = p.X
+				continue
+			}
+			break
+		}
+		switch t.(type) {
+		case *ast.Ident, *ast.SelectorExpr:
+			if !simpleArg(t) {
+				return nil, false
+			}
+			tag = t
+		default:
+			return nil, false
+		}
 	}
 	var pre []ast.Stmt
 	if x.Init != nil {
@@ -467,6 +486,11 @@ func (n *N) switchToIf(x *ast.SwitchStmt) ([]ast.Stmt, bool) {
 	for _, cc := range clauses {
 		var cond ast.Expr
 		for _, e := range cc.List {
+			if tag != nil {
+				eq := &ast.BinaryExpr{X: tag, Op: token.EQL, Y: e, OpPos: e.Pos()}
+				n.Info.Types[eq] = types.TypeAndValue{Type: types.Typ[types.Bool]}
+				e = eq
+			}
 			if cond == nil {
 				cond = e
 			} else {
